@@ -8,6 +8,7 @@ BUF = ["s_write", "s_write_slice", "s_read", "s_read_slice", "s_copy_from_u8", "
        "r_write", "r_read", "g_write", "g_write_slice", "g_read", "g_read_slice"]
 OBJ = ["s_write_obj", "s_read_obj", "r_write_obj", "r_read_obj", "g_write_obj", "g_read_obj"]
 ATOM = ["s_store", "s_load"]
+ATOM2 = ["s_store", "s_load", "r_store", "r_load", "g_store", "g_load"]
 
 
 def run(ctx):
@@ -25,14 +26,14 @@ def run(ctx):
             for g in range(8):
                 for lm in range(8):
                     prog.append({"op": "copy", "a": {"entry": e, "n": n, "gmod": g, "lmod": lm}})
-    for e in OBJ + ATOM:
+    for e in OBJ + ATOM2:
         for n in (1, 2, 4, 8):
             for g in range(8):
                 for lm in range(8):
                     prog.append({"op": "copy", "a": {"entry": e, "n": n, "gmod": g, "lmod": lm}})
     events = run_harness("copyw", prog, os.path.join(WORK, "copyw.ev.ndjson"), ctx=ctx)
     singles = sum(1 for e in events if e["a"]["n"] in (1, 2, 4, 8) and e["r"]["gres"] % e["a"]["n"] == 0 and e["r"]["lres"] % e["a"]["n"] == 0
-                  and e["a"]["entry"] not in ATOM)
+                  and e["a"]["entry"] not in ATOM2)
     if singles < 100:
         raise ToolError("too few aligned power-of-two transfers were exercised (%d)" % singles)
     mism = validate_trace(ctx, os.path.join(SPEC, "Trace_CopyWidth.tla"), os.path.join(SPEC, "Trace_CopyWidth.C06.cfg"), "tr_copyw", events,
@@ -49,7 +50,100 @@ def run(ctx):
     ctx.cov["aligned_power_of_two_transfers"] = singles
     ctx.sample({"kind": "recorded primitive accesses of one transfer", "events": [events[len(events) // 3], events[-1]]})
     ctx.assumptions += [
-        "the hook reports the width copy_single was asked for; that copy_single performs it as one machine access of that "
-        "width is the compiler's read_volatile/write_volatile contract (a byte loop inside copy_single would not be seen by the quick tier)",
-        "memory-ordering strength of the atomic load/store is not observable",
+        "the hook reports the width copy_single was asked for; what the processor is then asked to do is observed by the machine-level "
+        "pass (valgrind lackey) on the aligned cases",
+        "memory-ordering strength: only 'a SeqCst store is a locked read-modify-write instruction' is observed (machine level, x86-64)",
     ]
+    machine(ctx)
+
+
+# ---------------------------------------------------------------------------
+# machine level: what the processor is asked to do (valgrind lackey), judged by the same specification
+# ---------------------------------------------------------------------------
+import re
+import subprocess
+
+_LK = re.compile(r'^ ([LSM]) ([0-9a-fA-F]+),(\d+)')
+
+
+def machine(ctx):
+    """The hook reports the width copy_single was ASKED for.  Here the executor runs under valgrind's lackey tool, which
+    reports every load (L), store (S) and read-modify-write (M) instruction with its address and size; marker stores
+    delimit each library call.  For every aligned 1/2/4/8-byte transfer the guest location must be touched by exactly
+    one instruction, of that size, in the right direction - a byte loop or a memcpy inside the helper shows up here.
+    An atomic store requested with SeqCst must be a locked read-modify-write instruction (x86-64: xchg), which is how
+    the requested ordering is visible at this level."""
+    exe = build_harness("vmh", False)
+    prog = []
+    entries = BUF + OBJ + ATOM2
+    for e in entries:
+        for n in (1, 2, 4, 8):
+            prog.append({"op": "copy", "a": {"entry": e, "n": n, "gmod": 0, "lmod": 0}})
+            if n < 8 and e not in ATOM2:
+                prog.append({"op": "copy", "a": {"entry": e, "n": n, "gmod": n, "lmod": 8 - n}})
+        if e in BUF:
+            prog.append({"op": "copy", "a": {"entry": e, "n": 3, "gmod": 1, "lmod": 2}})
+    prog_path = os.path.join(WORK, "copyw_mach.prog")
+    out_path = os.path.join(WORK, "copyw_mach.ev.ndjson")
+    log_path = os.path.join(WORK, "copyw_mach.lackey")
+    with open(prog_path, "w") as f:
+        for line in prog:
+            f.write(json.dumps(line, separators=(",", ":")) + "\n")
+    env = dict(os.environ, VMH_MACH="1", VMH_OP_LIMIT_S="600")
+    t0 = time.time()
+    p = subprocess.run(["valgrind", "--tool=lackey", "--trace-mem=yes", "--log-file=" + log_path, exe, "copyw", prog_path, out_path],
+                       stdout=subprocess.PIPE, stderr=subprocess.PIPE, text=True, timeout=3000, env=env)
+    if p.returncode != 0:
+        raise ToolError("executor under valgrind failed rc=%d: %s" % (p.returncode, p.stderr[-1500:]))
+    events = [json.loads(l) for l in open(out_path) if l.strip()]
+    if len(events) != len(prog):
+        raise ToolError("executor under valgrind returned %d events for %d lines" % (len(events), len(prog)))
+    mark = events[0]["r"]["mark"]
+    windows, cur, inside, instr = [], None, False, 0
+    with open(log_path, errors="replace") as f:
+        for line in f:
+            if line.startswith("I"):
+                instr += 1
+                continue
+            m = _LK.match(line)
+            if not m:
+                continue
+            kind, addr, size = m.group(1), int(m.group(2), 16), int(m.group(3))
+            if addr == mark:
+                if not inside:
+                    cur, inside = [], True
+                else:
+                    windows.append(cur)
+                    inside = False
+                continue
+            if inside:
+                cur.append((kind, addr, size, instr))
+    os.remove(log_path)
+    if len(windows) != len(events):
+        raise ToolError("lackey log has %d marked windows for %d operations" % (len(windows), len(events)))
+    touched = 0
+    for ev, w in zip(events, windows):
+        g0, n = ev["r"]["gstart"], ev["a"]["n"]
+        hit = [(k, a - g0, s, i) for (k, a, s, i) in w if a < g0 + max(n, 1) and a + s > g0]
+        ren = {}
+        ev["r"]["mach"] = [[k, o, s, ren.setdefault(i, len(ren) + 1)] for (k, o, s, i) in hit]
+        ev["r"].pop("mark", None)
+        ev["r"].pop("gstart", None)
+        touched += len(ev["r"]["mach"])
+    if touched < len(events) // 2:
+        raise ToolError("the machine-level log shows almost no access to the guest locations (%d)" % touched)
+    mism = validate_trace(ctx, os.path.join(SPEC, "Trace_CopyWidth.tla"), os.path.join(SPEC, "Trace_CopyWidth.C06.cfg"), "tr_copyw_mach", events,
+                          encode=False, timeout=1800)
+    for m in mism:
+        ev = events[m[0] - 1]
+        ctx.mismatch({"module": "CopyWidth", "tag": m[1], "op": ev["a"]["entry"], "a": ev["a"], "r": {"k": m[1], "mach": ev["r"]["mach"]}},
+                     {"module": "copyw", "program": [{"op": "copy", "a": ev["a"]}], "expected": m[2], "observed": ev})
+    ctx.cov["machine_level_transfers"] = len(events)
+    ctx.cov["machine_level_accesses_to_guest_locations"] = touched
+    ctx.cov["traces_validated_against_impl"] += len(events)
+    log("[lackey] %d transfers, %d machine accesses to guest locations, %.0fs" % (len(events), touched, time.time() - t0))
+    ctx.sample({"kind": "machine-level accesses of one transfer (valgrind lackey: kind, offset from the guest location, size)",
+                "events": [events[0], events[len(events) // 2]]})
+    ctx.assumptions += ["machine level: x86-64; an instruction reported by lackey as one L/S/M of size n is one access; a SeqCst store is "
+                        "expected as a locked read-modify-write (xchg), a weaker store as a plain mov"]
+
